@@ -235,6 +235,8 @@ def check_case(ctx, case):
             kw['num_grad'] = True
         if priors_arg is not None:
             kw['priors'] = priors_arg
+        if case.get('exp_chisq') and not case['correlated'] and priors_arg is None and not case.get('via_corr'):
+            kw['expected_chisquare'] = True
         if case.get('guess') is not None:
             # the starting point of the minimiser is not part of the answer of a linear fit
             kw['initial_guess'] = [truth[i] * case['guess'] + 0.1 * (i + 1) * (case['guess'] - 1.0) for i in range(npar)]
@@ -362,6 +364,30 @@ def check_case(ctx, case):
             probs.append(('violation', 'chisquare', '%r vs %r' % (res.chisquare, chisq)))
         if res.dof != dof:
             probs.append(('violation', 'dof', '%r vs points - parameters + priors = %r' % (res.dof, dof)))
+        if kw.get('expected_chisquare'):
+            # chisquare / expected chisquare (arXiv:2209.14188): E = tr[(1 - P) W C W], W = diag(1/dy), C the covariance of the data,
+            # P the projector on the column space of W J (J the design matrix, rows stacked by sorted key)
+            kk = sorted(keys) if case['combined'] else keys[:1]
+            rows_, pts_ = [], []
+            for key in kk:
+                feat, idx = fb[key]
+                F = np.array(feat(xs[key])).T
+                for p_ in range(F.shape[0]):
+                    row = np.zeros(npar)
+                    for j, i in enumerate(idx):
+                        row[i] += F[p_, j]
+                    rows_.append(row)
+                    pts_.append(ys[key][p_])
+            J_ = np.array(rows_)
+            Wd = np.diag(1 / np.array([snap['dy'][id(o)] for o in pts_]))
+            C_ = pe.covariance(pts_)
+            A_ = Wd @ J_
+            P_ = A_ @ np.linalg.pinv(A_.T @ A_) @ A_.T
+            E_ = float(np.trace((np.eye(len(pts_)) - P_) @ Wd @ C_ @ Wd))
+            ctx.count('expected-chisquare')
+            got_ = getattr(res, 'chisquare_by_expected_chisquare', None)
+            if got_ is None or not close(float(got_), chisq / E_, rtol=(1e-3 if loose else 1e-6), scale=max(abs(chisq / E_), 1e-9)):
+                probs.append(('violation', 'chisquare-by-expected-chisquare', '%r vs chisquare %r / tr[(1-P) W C W] %r = %r' % (got_, chisq, E_, chisq / E_)))
         if case['correlated'] and dof > 0:
             # Hotelling t^2: the covariance was estimated from n_cov samples = the smallest N of the fitted points
             from scipy.stats import f as fdist
@@ -400,6 +426,7 @@ def gen_case(ctx):
         case['user_chol'] = 'listed_order' if (combined and rng.random() < 0.5) else 'ok'
     case['via_corr'] = (not combined) and b == 'poly' and rng.random() < 0.4
     case['via_fitlin'] = (not combined) and b == 'poly' and npar == 2
+    case['exp_chisq'] = rng.random() < 0.3
     if case['via_corr']:
         case['ens'] = case['ens'][:1]       # a correlator needs all timeslices on the same chains
     if case['priors']:
